@@ -21,6 +21,9 @@ def run(ctx):
     ctx.add("evaluations", r2["runs"])
     if not q:
         vlib.vacuity_check(ctx, "MC_Present.tla", "MC_Present_quick.cfg")
+    # across processes (the real binary): whole log in one process = blocks in separate processes; default = interleaving
+    rb = ctx.drv("compose-binary", outfile=os.path.join(ctx.scratch, "compose_bin_mm.ndjson"), env_extra={"VERIF_BIN": ctx.build_binary()})
+    ctx.add("evaluations", rb["runs"])
     # collapse modes of the balance never change the amounts: Balance.tla ModesAgreeOnLeaves, replayed
     common.replay_layer(ctx, "MC_Balance.tla", "MC_Balance_quick.cfg", "balance-replay", "balance", workers=10, heap="3g")
     return vlib.finish(
